@@ -433,7 +433,8 @@ class _Recorder:
                 self.cand += int(lw.size)
                 with np.errstate(all="ignore"):
                     m = np.nanmax(lw)
-                    self.log_max.append(float(m))
+                    self.log_max.append(
+                        (len(self.pop_log_max) - 1, float(m)))
                     if self.pop_log_max:
                         self.pop_log_max[-1] = max(self.pop_log_max[-1],
                                                    float(m))
@@ -443,6 +444,22 @@ class _Recorder:
         fp.draw_latent_prior = draw_latent_prior
         fp.compute_weights = compute_weights
         fp.forward_pass = forward_pass
+
+
+def _pooled_sd(values, labels):
+    """S.d. of values around the mean of their own label (contour): batches
+    / populations that share a contour are exchangeable."""
+    by = {}
+    for v, k in zip(values, labels):
+        if math.isfinite(v):
+            by.setdefault(k, []).append(v)
+    ss, dof = 0.0, 0
+    for vs in by.values():
+        if len(vs) > 1:
+            m = sum(vs) / len(vs)
+            ss += sum((v - m) ** 2 for v in vs)
+            dof += len(vs) - 1
+    return math.sqrt(ss / dof) if dof else None
 
 
 def _std_normal_logpdf(z):
@@ -524,11 +541,13 @@ def _reference(fp, case, prior, groups, rs):
     out = []
     tried = 0
     kept = 0
-    batch = 50_000
     count = {"in_radius": 0, "cut_by_log_q": 0}
     for contour, n in groups:
         have = 0
         while have < n:
+            # batch size from the acceptance seen so far (cost only)
+            frac = max(kept, 1) / max(tried, 1) if tried else 0.25
+            batch = int(min(50_000, max(2_000, 1.5 * (n - have) / frac)))
             x = prior.sample(batch, rs)
             keep = _member(fp, case, contour, x, rs, count)
             tried += batch
@@ -595,7 +614,7 @@ def _judge(case, tests, meas):
             f"{apb:.1f} draws per batch were accepted on average "
             f"({meas.get('candidates_per_batch', float('nan')):.0f} "
             "candidates per batch, spread of the per-batch log maximum "
-            f"{meas.get('log_max_sd', float('nan')):.2f})",
+            f"{spread if spread is None else round(spread, 2)})",
             case,
         )
         v.meas = meas
@@ -628,10 +647,17 @@ def _run_flow_cell(case, out):
         _nessai(cname + ".check_state", case, fp.check_state,
                 fp.training_data)
     order = np.argsort(train["logL"], kind="stable")
-    worst = train[order[int(case["worst_rank"] * (len(order) - 1))]]
+    # the worst point of successive populations: as in a run, it moves
+    # (cycle of `worst_cycle` training points of increasing likelihood)
+    worsts = [
+        train[order[int(min(0.9, case["worst_rank"] + 0.1 * j)
+                        * (len(order) - 1))]]
+        for j in range(int(case.get("worst_cycle", 1)))
+    ]
     rec = _Recorder(fp, MAX_LATENT_DRAWS_ACC if case["accumulate_weights"]
                     else MAX_LATENT_DRAWS)
     parts, groups = [], []
+    pop_key = []
     total = 0
     n_outside = 0
     n_acc = 0.0
@@ -643,8 +669,8 @@ def _run_flow_cell(case, out):
         d0 = rec.draws
         rec.min_log_q = None
         rec.pop_log_max.append(-math.inf)
-        _nessai(cname + ".populate", case, fp.populate, worst,
-                N=fp.poolsize, plot=False)
+        _nessai(cname + ".populate", case, fp.populate,
+                worsts[(npop - 1) % len(worsts)], N=fp.poolsize, plot=False)
         s = fp.samples
         if s is None or len(s) == 0:
             raise Violation(
@@ -660,8 +686,11 @@ def _run_flow_cell(case, out):
                            -1).astype(float)[: len(x)]
         inside = _member(fp, case, c, x, None, aug=aug, slack=SLACK)
         n_outside += int((~inside).sum())
-        if groups and groups[-1][0].key() == c.key():
-            groups[-1][1] += len(x)
+        pop_key.append(c.key())
+        for g in groups:
+            if g[0].key() == c.key():
+                g[1] += len(x)
+                break
         else:
             groups.append([c, len(x)])
         parts.append(x)
@@ -677,12 +706,14 @@ def _run_flow_cell(case, out):
         acceptance=n_acc / max(rec.draws, 1),
         accepted_per_batch=n_acc / max(rec.batches, 1),
         candidates_per_batch=rec.cand / max(rec.weighted_batches, 1),
-        log_max_sd=float(np.std(rec.log_max)) if rec.log_max else 0.0,
+        # spread of the per-batch maximum log-weight among batches drawn
+        # from the same contour
+        log_max_sd=_pooled_sd([m for _, m in rec.log_max],
+                              [pop_key[i] for i, _ in rec.log_max]),
     )
     if case["accumulate_weights"]:
         meas["accepted_per_population"] = n_acc / npop
-        pm = [m for m in rec.pop_log_max if math.isfinite(m)]
-        meas["pop_log_max_sd"] = float(np.std(pm)) if pm else 0.0
+        meas["pop_log_max_sd"] = _pooled_sd(rec.pop_log_max, pop_key)
     if not np.isfinite(pool).all():
         raise Violation("pool:non-finite", "pool contains NaN/inf", case)
     meas["pool_outside_contour"] = n_outside
@@ -859,7 +890,8 @@ def cells(draw, forced=None):
             ["tight", "tight", "moderate", "wide"]))
         if acc and size == "wide":
             size = "moderate"  # accumulated draws would exceed the budget
-        kind = draw(st.sampled_from(["fuzz", "expansion", "fixed"]))
+        kind = pick("radius_kind", st.sampled_from(
+            ["fuzz", "expansion", "fixed"]))
         if size == "beyond":
             # a contour reaching beyond the training points (where the
             # log-q truncation acts)
@@ -945,6 +977,7 @@ def cells(draw, forced=None):
         }
     case["n_train"] = pick("n_train", st.sampled_from([100, 200, 500, 1000]))
     case["worst_rank"] = draw(st.sampled_from([0.0, 0.0, 0.25, 0.5]))
+    case["worst_cycle"] = pick("worst_cycle", st.sampled_from([1, 1, 2, 3]))
     if proposal == "augmented":
         case["augment_dims"] = draw(st.sampled_from([1, 1, 2]))
         case["generate_augment"] = pick(
@@ -969,7 +1002,7 @@ TEMPLATES = [
          prior="nonuniform", state="trained"),
     dict(proposal="flow", latent_prior=_TG, constant_volume_mode=False,
          contour="moderate", accumulate_weights=True, reparam="zscore",
-         truncate_log_q=False),
+         truncate_log_q=False, radius_kind="fuzz", worst_cycle=3),
     dict(proposal="flow", latent_prior=_TG, constant_volume_mode=False,
          contour="moderate", accumulate_weights=False, drawsize=20000,
          reparam="mixed-bounds", state="trained"),
@@ -1000,7 +1033,7 @@ TEMPLATES = [
          reparam="zscore", state="trained", lax_prior=True, train="edge"),
     dict(proposal="augmented", latent_prior=_TG, constant_volume_mode=False,
          contour="tight", generate_augment="gaussian", reparam="logit",
-         accumulate_weights=True),
+         accumulate_weights=True, radius_kind="fuzz"),
     dict(proposal="augmented", latent_prior=_NB, constant_volume_mode=True,
          generate_augment="zeros", prior="nonuniform"),
     dict(proposal="augmented", latent_prior="gaussian", train="prior",
